@@ -327,6 +327,10 @@ Definition agree7 (c : case7) : bool :=
 (** the property on the implementation's observations: recovery succeeds, serves a certificate
     that is in storage with its matching key, named for the subject, not due for renewal; the
     handshake twin succeeded too *)
+(** the revocations of the scenario (they are the last set-up steps: the certificate the CA revoked
+    is the one in the implementation's storage after the set-up) *)
+Definition env7 (c : case7) : list (N * bool) :=
+  fold_left (fun env ho => env_after (c7_sp c) (c7_st0 c) (fst ho) env) (c7_setup c) [].
 Definition spec7 (c : case7) : bool :=
   let o2 := c7_obs2 c in
   (ob_res o2 =? 0) &&
@@ -340,7 +344,7 @@ Definition spec7 (c : case7) : bool :=
   end && c7_twin c
   (* ... and the recovery itself obeys the clauses of C06 (complete matching bundle under the
      documented keys, reload, key reuse / freshness), judged from the storage the fault left behind *)
-  && spec_step (c7_cfg c) (c7_sp c) [] (ob_st (c7_obs1 c)) HManage o2.
+  && spec_step (c7_cfg c) (c7_sp c) (env7 c) (ob_st (c7_obs1 c)) HManage o2.
 
 Definition check_line7 (l : list Z) : Z :=
   match decode get_case7 l with
